@@ -254,8 +254,11 @@ pub fn worker(idx: usize) {
                     let act = sc.alphabet.get(ai);
                     if is_noncommitting(&act) && !sc.bisim_followups.is_empty() && res.digest.is_some() {
                         for f in &sc.bisim_followups {
-                            let d1 = run_followup(sc, &path, &h, Some(ai), f, base);
-                            let d2 = run_followup(sc, &path, &h, None, f, base);
+                            // lifetimes: the scenario list and base images live as long as the worker
+                            let sc_s: &'static Scenario = unsafe { &*(sc as *const Scenario) };
+                            let base_s: Option<&'static BaseImage> = base.map(|b| unsafe { &*(b as *const BaseImage) });
+                            let (d1, pos) = run_followup(sc_s, &path, &h, Some(ai), f, base_s, None);
+                            let (d2, _) = run_followup(sc_s, &path, &h, None, f, base_s, Some(pos));
                             if d1 != d2 {
                                 res.violations.push(Violation::new("abandoned_tx_influences_followup", format!("after the abandoned action, follow-up {} leads to a different file/bookkeeping state than without it", f.to_json())));
                                 break;
@@ -291,26 +294,45 @@ pub fn worker(idx: usize) {
     });
 }
 
-fn run_followup(sc: &Scenario, path: &str, h: &[u32], a: Option<usize>, f: &Action, base: Option<&BaseImage>) -> Option<u128> {
-    let mut r = start_runner(sc, path, base).ok()?;
-    let none = Oracles::NONE;
-    if base.is_none() {
-        for act in &sc.setup {
-            r.step(act, &none);
+/// Digest reached by `h (+ a) + f`, on a fresh thread.  With `a` present returns the hash-seed
+/// position right before `f`; with `seek` given, advances to that position before `f`, so that both
+/// variants run `f` with identical hash-map iteration orders inside the library.
+fn run_followup(sc: &'static Scenario, path: &str, h: &[u32], a: Option<usize>, f: &Action, base: Option<&'static BaseImage>, seek: Option<u64>) -> (Option<u128>, u64) {
+    let path = path.to_string();
+    let h = h.to_vec();
+    let f = f.clone();
+    crate::fresh::on_fresh_thread(move || {
+        let mut r = match start_runner(sc, &path, base) {
+            Ok(r) => r,
+            Err(_) => return (None, 0),
+        };
+        let none = Oracles::NONE;
+        if base.is_none() {
+            for act in &sc.setup {
+                r.step(act, &none);
+            }
         }
-    }
-    for &i in h {
-        r.step(&sc.alphabet.get(i as usize), &none);
-    }
-    if let Some(ai) = a {
-        r.step(&sc.alphabet.get(ai), &none);
-    }
-    r.step(f, &none);
-    if r.poisoned {
-        None
-    } else {
-        Some(r.digest())
-    }
+        for &i in &h {
+            r.step(&sc.alphabet.get(i as usize), &none);
+        }
+        if let Some(ai) = a {
+            r.step(&sc.alphabet.get(ai), &none);
+        }
+        let probe = match seek {
+            Some(p) => {
+                crate::fresh::rs_seek(p);
+                p
+            }
+            None => crate::fresh::rs_probe(),
+        };
+        r.step(&f, &none);
+        if r.poisoned {
+            (None, probe)
+        } else {
+            (Some(r.digest()), probe)
+        }
+    })
+    .unwrap_or((None, 0))
 }
 
 pub struct SearchStats {
